@@ -146,7 +146,10 @@ func guard(out *vstat.Outcome, what string, f func()) {
 	}()
 	start := time.Now()
 	f()
-	if d := time.Since(start); d > 30*time.Second {
+	// a call that never returns is ended by the job's deadline; this only flags calls that are
+	// out of all proportion (brotli at level 11 needs seconds for three 1 MiB bodies, and
+	// tens of seconds when every core is busy with other checks)
+	if d := time.Since(start); d > 300*time.Second {
 		out.Violate("C12", "hang", "%s took %s", what, d)
 	}
 }
@@ -561,6 +564,31 @@ func execC12Mal(m c12Mal) *vstat.Outcome {
 	guard(out, m.Enc+" decode of a malformed stream", func() {
 		_, _ = srv.Decompress(m.Enc, b)
 	})
+	// a decoder that has just been given a malformed stream still restores a valid one
+	valid := bytes.Repeat([]byte(fmt.Sprintf("after malformed stream of %d bytes: lorem ipsum dolor sit amet. ", len(b))), 1+len(b)%7)
+	var vs []byte
+	switch m.Enc {
+	case "gzip":
+		vs = refGzip(valid, 6)
+	case "br":
+		vs = refBrotli(valid, 5)
+	case "lz4":
+		vs = refLZ4Literal(valid)
+	case "snz":
+		vs = refSnappy(valid)
+	case "zst":
+		vs = refZstd(valid, 1)
+	}
+	if vs != nil {
+		guard(out, m.Enc+" decode of a valid stream after a malformed one", func() {
+			got, err := srv.Decompress(m.Enc, vs)
+			if err != nil {
+				out.Violate("C12", m.Enc, "right after a malformed %s stream (%s, %d bytes) was given to the decoder, a valid %s stream of %d bytes is rejected: %v", m.Enc, m.Kind, len(b), m.Enc, len(valid), err)
+			} else if !bytes.Equal(got, valid) {
+				out.Violate("C12", m.Enc, "right after a malformed %s stream (%s, %d bytes) was given to the decoder, a valid %s stream is restored to %d bytes instead of its %d", m.Enc, m.Kind, len(b), m.Enc, len(got), len(valid))
+			}
+		})
+	}
 	out.NonTrivial = len(b) >= 4
 	out.Class("enc_" + m.Enc)
 	out.Class("kind_" + m.Kind)
